@@ -44,13 +44,17 @@ def signed(nbytes, b):
 class Prop:
     id = "C10"
     lean_module = "MuduoVerif.Props.C10"
-    gen_engines = ["Buffer"]
+    gen_engines = ["Buffer", "BufferSkel"]
     drivers = ["buffer"]
-    technique = "Lean 4 refinement proof (Buffer model -> FIFO byte string) + T1 guard extraction + differential run vs. real Buffer"
+    technique = ("Lean 4 refinement proof (Buffer model -> FIFO byte string) + T1 guard and statement-skeleton extraction "
+                 "+ differential run vs. real Buffer")
     level_text = ("Kernel-checked theorems: for every operation sequence within the documented preconditions the model of "
                   "Buffer refines an unbounded FIFO byte string, keeps its index invariant, keeps the cheap-prepend bytes, "
                   "round-trips big-endian integers and finds the first CRLF/EOL; branch guards and constants of the model are "
-                  "re-extracted from /repo's AST on every run, the rest of the model is tied to the real class by a "
+                  "re-extracted from /repo's AST on every run, and so is the statement skeleton of every modelled member "
+                  "function (which index is stored with which expression, resizes, copies, member/system calls, assertions: "
+                  "order and nesting), proved equal to the skeleton the model implements (statement_order_tied); the rest "
+                  "of the model is tied to the real class by a "
                   "differential run (exhaustive small depth + random), and an independent FIFO oracle is evaluated on the "
                   "implementation's own observations")
     level_note = ("Trusted: Lean kernel (axioms propext, Classical.choice, Quot.sound only), vlib/extract.py, the "
@@ -63,7 +67,10 @@ class Prop:
     trusted_base = [
         "Lean 4.33.0 kernel; axioms allowed: propext, Classical.choice, Quot.sound",
         "vlib/extract.py (clang-14 JSON AST -> Generated/Buffer.lean: constants and the five branch guards)",
-        "hand-written Model/Buffer.lean for everything else, tied by the differential run (harness/buffer_drv.cc vs lean driver)",
+        "vlib/gen/bufferskel.py (same AST -> Generated/BufferSkel.lean: statement skeletons of 48 member functions) and the "
+        "hand-written reading Model/BufferSkelDecl.lean of Model/Buffer.lean (which model term stands for which statement)",
+        "hand-written Model/Buffer.lean for everything else (the meaning of one statement: splice, resize, byte order), tied by "
+        "the differential run (harness/buffer_drv.cc vs lean driver)",
         "std::vector, std::copy, std::search, memchr, htobe*/be*toh behave as documented",
     ]
     assumptions = [
